@@ -182,11 +182,12 @@ def twoDigitYear (y0 y1 : UInt8) : Option Int :=
 /-- the calendar year a two-digit year stands for (69..99 are 19yy, everything below is 20yy) -/
 def fullYear (yy : Int) : Int := if yy ≥ 69 then 1900 + yy else 2000 + yy
 
-/-- `time.Parse("060102150405.000", s)` succeeds -/
+/-- `time.Parse("060102150405.000", s)` succeeds (when parsing, Go takes a comma for the decimal
+    point of the fractional seconds as well) -/
 def validDate (d : Bytes) : Bool :=
   match d with
   | [y0, y1, m0, m1, d0, d1, h0, h1, i0, i1, s0, s1, dot, f0, f1, f2] =>
-    [m0, m1, d0, d1, h0, h1, i0, i1, s0, s1, f0, f1, f2].all isDigitB && dot == 46 &&
+    [m0, m1, d0, d1, h0, h1, i0, i1, s0, s1, f0, f1, f2].all isDigitB && (dot == 46 || dot == 44) &&
     (match twoDigitYear y0 y1 with
      | none => false
      | some yy =>
